@@ -317,6 +317,33 @@ def format_part(chk):
     return exprs, obs
 
 
+def filter_part(chk):
+    """Model.FilterArgs.classify_arg vs _RunFilter for single arguments"""
+    from rebench.configurator import _RunFilter
+    from rebench.configuration_error import ConfigurationError
+    rng = chk.rng
+    pool = ["e", "s", "t", "q", ":", "::", "E1", "S", "B", "a b", "", "e:", "s:", "t:", "é", "es", " e", "E"]
+    args = ["e", "s", "t", "e:", "e:E", "e:E:x", "s:S", "s:S:B", "s:S:B:x", "t:a", "t:a:b", "q:zz", "", ":", "e::", "x", "es:a", "e :a", "::e"]
+    for _ in range(300 if chk.tier == "quick" else 3000):
+        args.append("".join(rng.choice(pool) if rng.random() < 0.5 else rng.choice([":", "e", "s", "t"]) for _ in range(rng.randint(0, 4))))
+    exprs, obs = [], []
+    for a in args:
+        try:
+            f = _RunFilter([a])
+            got = [0, 0 if f._executor_filters else 1 if f._suite_filters else 2 if f._tag_filters else 9]
+        except ConfigurationError:
+            got = [1]
+        except Exception as exc:  # noqa
+            got = [2]
+            chk.violation("C10 a malformed filter argument is reported as a usage error, never a traceback", dict(argument=a),
+                          "ConfigurationError (exit status 3)", repr(exc))
+        exprs.append("sx_fclass (classify_arg %s)" % core.coq_str(a))
+        obs.append((dict(argument=a), got))
+        chk.case(("filter-arg", a))
+    chk.count("filter_arguments", len(args))
+    return exprs, obs
+
+
 def exit_part(chk):
     """Gen.GenMain.exit_status vs main_func for every way ReBench().run() can end"""
     import rebench.rebench as rb
@@ -357,12 +384,24 @@ def exit_part(chk):
 
 
 def run(chk):
-    chk.prove(models=["Model/Machine", "Model/Format", "Gen/GenUi", "Gen/GenMain"])
+    chk.prove(models=["Model/Machine", "Model/Format", "Gen/GenUi", "Gen/GenMain", "Model/FilterArgs"])
     exprs = []
     in_process_part(chk, exprs)
     cli_part(chk)
     fexprs, fobs = format_part(chk)
     xexprs, xobs = exit_part(chk)
+    aexprs, aobs = filter_part(chk)
+    try:
+        ares = core.coq_eval(["Lib.Str", "Gen.GenFilter", "Model.FilterArgs"], aexprs, chk.scratch, chunk=400, jobs=4)
+        na = 0
+        for (case, o), m in zip(aobs, ares):
+            if m != o:
+                na += 1
+                if na <= 3:
+                    chk.obligation_broken("correspondence", "Model.FilterArgs.classify_arg vs _RunFilter", "case %r impl %s model %s" % (case, o, m))
+        chk.count("filter_argument_disagreements", na)
+    except core.BuildError as exc:
+        chk.obligation_broken("correspondence", "model evaluation (Model.FilterArgs)", exc)
     try:
         fres = core.coq_eval(["Lib.Str", "Model.Format", "Gen.GenUi", "Gen.GenMain"], fexprs + xexprs, chk.scratch, chunk=300, jobs=8)
         nf = 0
